@@ -295,6 +295,17 @@ FINDING_SHARDS = {
 }
 
 
+def c03_map32_shards(tier, seed):
+    """The discontiguous layout: spaces give chunks back to the VM map at GCs and acquire them again,
+    so an allocation can be the first one in a chunk that held objects before (zeroing, alignment)."""
+    rnd = _rng(seed, 303)
+    out = []
+    for plan in ["SemiSpace", "GenCopy", "Immix", "MarkSweep", "MarkCompact", "StickyImmix"]:
+        for _ in range(1 if tier == "quick" else 4):
+            out.append(gc_shard("A", plan, rnd, 12000 if tier == "quick" else 40000, flags=[], mutators=rnd.choice([1, 2]), heap=rnd.choice([32, 64]), extra=["--layout", "map32"]))
+    return out
+
+
 def finding_shards(pid, seed):
     rnd = _rng(seed, 77)
     out = []
@@ -354,12 +365,13 @@ gcsim("C02", "New allocations never overlap live objects",
 gcsim("C03", "Allocation results honour size, alignment, offset, zeroing and semantics",
       rule=GC_RULE + "every allocation result is checked before the header is written: non-null, (addr+offset) % align == 0, [addr, addr+size) mapped MMTk memory, all bytes zero "
            "(memory dirtied by earlier objects and freed by GCs is reused constantly); sizes concentrate on boundaries (min object, line +-8, mark-sweep size classes +-8, page multiples +-8, "
-           "the non-LOS limit, LOS multi-page), aligns 8..MAX_ALIGNMENT, offsets multiples of 8; case = one allocation; distinct = (size class, align, offset, semantics)",
+           "the non-LOS limit, LOS multi-page), aligns 8..MAX_ALIGNMENT, offsets multiples of 8; six further shards run under the discontiguous layout (--layout map32), where spaces give chunks back at GCs and "
+           "re-acquire them, so allocations land in chunks that are new to the space but held objects before; case = one allocation; distinct = (size class, align, offset, semantics)",
       technique="assertion monitor on every allocation return of generated programs (runtime monitoring through a real VM binding); non-termination observed as a crash/watchdog of the process",
       level_text="Every alloc() of every generated program is checked for alignment, mapped-ness and zeroing before use; a call that never returns shows up as a stack overflow / watchdog of that process.",
       note="Which space an address belongs to is checked by C31; termination is a bounded observation (watchdog), not a proof.",
       design_ref="2/C03",
-      shards=lambda tier, seed: std_gc_shards(tier, seed, 3, []) + finding_shards("C03", seed),
+      shards=lambda tier, seed: std_gc_shards(tier, seed, 3, []) + c03_map32_shards(tier, seed) + finding_shards("C03", seed),
       floors={"quick": {"allocations_checked": 150000, "processes_plan_NoGC": 1, "processes_plan_MarkSweep": 1, "processes_plan_Immix": 1}})
 
 gcsim("C04", "Non-moving, immortal and pinned objects never move; immortal ones never die",
@@ -375,16 +387,22 @@ gcsim("C04", "Non-moving, immortal and pinned objects never move; immortal ones 
 
 gcsim("C05", "Generational remembered sets are sound",
       rule=GC_RULE + "generational plans only; every program plants the shape 'object that survived a pause holds the only reference to a fresh object' through the write barrier or the region-copy barrier, "
-           "then provokes collections; at each nursery pause the objects whose only strong path goes through an old object are verified like in C01 and counted; case = one such object",
-      technique="shadow-heap oracle restricted to remembered-set-only survivors of nursery GCs",
+           "then provokes collections; at each nursery pause the objects whose only strong path goes through an old object are verified like in C01 and counted; case = one such object. "
+           "The shadow heap's lock serialises the mutators' write barriers, so the remembering step itself is also raced outside gcsim: the real ObjectBarrier (object_reference_write_slow/_post with a counting BarrierSemantics) is called by 2-8 "
+           "threads on the same old object while neighbour threads keep changing the other bits of the same log byte (side and in-header log bits, all bit positions): exactly one caller must remember the object and it must end up logged "
+           "(the units C18 monitor restricted to log_object, reporting under C05)",
+      technique="shadow-heap oracle restricted to remembered-set-only survivors of nursery GCs + exactly-once checker on racing real write-barrier calls",
       level_text="Objects that can only have survived a nursery GC through the remembered set are identified in the shadow graph and verified (alive, intact, slot updated) after the pause.",
       note="Needs nursery GCs: GenCopy, GenImmix, StickyImmix in variants A and B (side log bit).",
       design_ref="2/C05",
-      shards=lambda tier, seed: std_gc_shards(tier, seed, 5, ["weak"], plans_filter=GENERATIONAL, variants="AB", reps_quick=2) + finding_shards("C05", seed),
-      floors={"quick": {"remset_only_verified": 300, "nursery_pauses": 100, "full_pauses": 10, "old_to_young_stores": 500, "array_copies": 100}})
+      shards=lambda tier, seed: std_gc_shards(tier, seed, 5, ["weak"], plans_filter=GENERATIONAL, variants="AB", reps_quick=2) + finding_shards("C05", seed)
+      + [dict(pkg="units", variant="A", args=["C18", "--only", "log_object", "--as", "C05"])],
+      floors={"quick": {"remset_only_verified": 300, "nursery_pauses": 100, "full_pauses": 10, "old_to_young_stores": 500, "array_copies": 100,
+                        "objects_raced_b_with_neighbours": 10000}})
 
 gcsim("C06", "Soft/weak/phantom references and finalizers follow their semantics",
-      rule=GC_RULE + "programs register weak/soft/phantom reference objects (referent set at construction) and finalizers; clear_referent / set_referent / enqueue_references / get_finalized_object are logged; "
+      rule=GC_RULE + "programs register weak/soft/phantom reference objects (referent set at construction) and finalizers, and withdraw registrations of objects the VM still reaches with get_finalizers_for (exactly the outstanding registrations must come back; "
+           "the candidates registered since the last GC must still be scanned by the next nursery GC); clear_referent / set_referent / enqueue_references / get_finalized_object are logged; "
            "every pause: a cleared reference whose referent was strongly reachable, cleared-but-not-enqueued, enqueued twice, a finalizable returned twice / while strongly reachable at every pause since registration, "
            "stale address; after forced exhaustive single-mutator GCs additionally the reference model (certainly-live / possibly-live sets S1, S2) decides what MUST have been cleared / made ready; case = one processed reference or finalizable",
       technique="executable reference model of the reference/finalizer semantics over the shadow graph + exactly-once checker on the recorded callback history",
@@ -615,6 +633,13 @@ def c09_shards(tier, seed):
                     extra += ["--disable", "nonmoving"]  # known finding, see the finding shard below
                 shards.append(gc_shard(variant, plan, rnd, n, mutators=1, heap=rnd.choice([16, 24, 32]), stress=stress,
                                        scenario="cycles", extra=extra))
+    # the discontiguous layout (Map32): page resources grow chunk by chunk, free runs must coalesce back into whole
+    # chunks for the chunks to be returned, and large requests need several adjacent chunks
+    rnd32 = _rng(seed, 909)
+    for plan in ["SemiSpace", "Immix", "MarkSweep", "MarkCompact", "GenImmix"]:
+        for _ in range(1 if tier == "quick" else 2):
+            shards.append(gc_shard("A", plan, rnd32, cycles, mutators=1, heap=rnd32.choice([16, 24, 32]), stress=rnd32.choice([0, 1 << 20]),
+                                   scenario="cycles", extra=["--fill-pct", rnd32.choice([20, 30]), "--layout", "map32"]))
     # known finding: NonMoving objects in a mark-sweep non-moving space are never reclaimed under ConcurrentImmix
     shards.append(gc_shard("D", "ConcurrentImmix", rnd, 130, mutators=1, workers=2, heap=24, stress=0, scenario="cycles",
                            extra=["--fill-pct", 40], finding="config:marksweep_as_nonmoving+concurrentimmix:nonmoving-space-never-reclaimed"))
@@ -622,7 +647,7 @@ def c09_shards(tier, seed):
 
 
 gcsim("C09", "Garbage is fully reclaimable (no space leak across GC cycles)",
-      rule="single-mutator gcsim programs of the shape the property describes, for every collecting plan in variants A-D (D = marksweep_as_nonmoving): 45 cycles (thorough 700) of {allocate 20-40 % of a 16-32 MiB heap as linked structures "
+      rule="single-mutator gcsim programs of the shape the property describes, for every collecting plan in variants A-D (D = marksweep_as_nonmoving) and five plans of variant A under the discontiguous layout (Map32): 45 cycles (thorough 700) of {allocate 20-40 % of a 16-32 MiB heap as linked structures "
            "kept reachable from roots, with a different size mix per cycle (tiny objects, medium, the boundary-heavy general mix, half the bytes in large objects, line/block-sized, alternating tiny/large, one size class per cycle; "
            "Default, LOS and NonMoving semantics; PageProtect and LOS counted in pages), drop every root, force an exhaustive GC, read memory_manager::used_bytes}; E: an allocation fails or Collection::out_of_memory is called; "
            "used_bytes after the GC > heap/16 (heap/4 for ConcurrentImmix; the stated constant floor; the value observed on this tree is 0); half of the shards additionally run allocation-triggered (stress) GCs inside the fill phase; max used_bytes after GC over the second half of the run > max over the first half + 1 MiB (growth); every pause is also checked by the C01/C02 oracles; "
@@ -764,8 +789,9 @@ gcsim("C31", "Address-to-space resolution is total and exact",
            "(mechanisms must agree: is_in_mmtk_spaces <=> SFT entry not empty; SFT space => same VM-map descriptor); a panic in any lookup is a violation; case = one address; distinct = set of spaces objects resolved to, empty seen",
       technique="differential monitor of the three resolution mechanisms against the shadow heap and the plan's space table at quiescent points",
       level_text="Resolution is checked for the addresses listed, in every pause of every run; not for all addresses.",
-      note="SFTSpaceMap attributes the whole 2 TiB address slot of a contiguous space to it, so addresses of a slot outside [start, start+extent) are not expected to be 'empty'. The VM map is only queried for addresses the SFT attributes to a space "
-           "(Map64::get_descriptor_for_address indexes out of bounds for the unusable last slot below heap_end; not reachable through the public API). SFTDenseChunkMap (vm_space builds) is not covered.",
+      note="SFTSpaceMap attributes the whole 2 TiB address slot of a contiguous space to it, so addresses of a slot outside [start, start+extent) are not expected to be 'empty'. Under Map64 the VM map is only queried for addresses the SFT attributes to a space "
+           "(Map64::get_descriptor_for_address has the precondition 'inside the heap range' and indexes out of bounds for the unusable last slot below heap_end; not reachable through the public API); under Map32, whose lookup is total by construction "
+           "(bounds-checked table, uninitialised descriptor), it is queried for every probed address: no panic, and the uninitialised descriptor outside [heap_start, heap_end). SFTDenseChunkMap (vm_space builds) is not covered.",
       design_ref="2/C31", shards=c31_shards,
       floors={"quick": {"addresses_inside_live_objects": 500000, "space_boundary_addresses": 20000, "outside_heap_addresses": 5000, "random_chunk_addresses": 50000, "freed_object_addresses": 500, "freed_multi_chunk_object_addresses": 300, "addresses_resolved_to_empty": 30000}})
 
